@@ -1,5 +1,5 @@
 (* Extraction of the hand-written executable model (T-cor for C11). ExtrOcamlBasic only. *)
 From Coq Require Import ZArith List Extraction ExtrOcamlBasic.
 From C11 Require GrowModel.
-Separate Extraction GrowModel.cfg_step GrowModel.cfg_init GrowModel.cfg_shape GrowModel.cfg_find GrowModel.traverse
+Separate Extraction GrowModel.cfg_step GrowModel.cfg_init GrowModel.cfg_shape GrowModel.cfg_find GrowModel.cfg_traverse
   GrowModel.gens GrowModel.count GrowModel.capacity.
